@@ -83,9 +83,18 @@ class CompleteWorkflowHandler(StabilizeHandler[CompleteWorkflow]):
             # A paused workflow is not completed behind the operator's back
             # (PAUSED -> SUCCEEDED is not a transition): unpause() sends a new
             # CompleteWorkflow once the workflow runs again.
+            # A canceled workflow is different: PAUSED -> CANCELED is a legal
+            # transition and a cancel must not wait for a resume.
             if execution.status == WorkflowStatus.PAUSED:
-                logger.info("Execution %s is PAUSED - completion deferred until it is resumed", execution.id)
-                return
+                if not execution.is_canceled:
+                    logger.info("Execution %s is PAUSED - completion deferred until it is resumed", execution.id)
+                    return
+                # Canceled while paused: it ends now. Leave PAUSED through
+                # RUNNING so that whatever the final status is (CANCELED, or
+                # SUCCEEDED when everything had finished) is a legal transition.
+                execution.resume()
+                with self.repository.transaction(self.queue) as txn:
+                    txn.update_workflow_status(execution)
 
             # Determine final status
             status = self._determine_final_status(execution, message)
